@@ -3,7 +3,7 @@
    over every initial store [l] and over every history [ops] of the operations of Model.op
    (view reads and writes interleaved with T/P/phase/phases setters, link_with, unlink, copy_like,
    property-package reset and the reset_chemicals round trip).  [final] is the heap after the history. *)
-From V Require Import Common.NumFacts C11.Model C11.Proofs.
+From V Require Import Common.NumFacts C11.Model C11.Proofs C11.ProofsDeep.
 
 (* the machine that is run against the implementation: the heap plus the state kept outside the indexers
    (Stream._flow_cache, the factor caches of the units objects, the per-stream property memo) *)
@@ -317,6 +317,63 @@ Proof.
 Qed.
 Print Assumptions C11_set_total_keeps_composition.
 
+(* ---------- deepening round: read-back theorems ---------- *)
+(* Stream.reset_flow(phase, units, several chemicals) after any history: EVERY written flow reads back in that unit *)
+Theorem C11_reset_flow_multi_reads_back : forall Vf MWf pkgs utab l ops,
+  (forall g, ~ MWf g == 0) -> (forall g p T P, ~ Vf g p T P == 0) ->
+  let h := final Vf MWf pkgs utab l ops in
+  forall i s p u w f fl, nth_error (streams h) i = Some s -> multi s = false ->
+  unit_of utab u = Some (w, f) -> ~ f == 0 -> fl <> [] -> NoDup (map fst fl) ->
+  (sdata s < length (rows h))%nat ->
+  (forall k v, In (k, v) fl -> (k < length (getrow h (sdata s)))%nat) ->
+  let h1 := fst (reset_flow Vf MWf pkgs utab h s p (Some u) None fl) in
+  forall k v, In (k, v) fl ->
+    exists h2 x, get_item Vf MWf pkgs h1 s w O k = (h2, Ok x) /\ f * x == v.
+Proof.
+  intros Vf MWf pkgs utab l ops MW VN h i s p u w f fl Hs M U NZ NE ND D KR.
+  exact (reset_flow_multi_reads_back Vf MWf pkgs utab MW VN h i s p u w f fl (inv_final Vf MWf pkgs utab l ops) Hs M U NZ NE ND D KR).
+Qed.
+Print Assumptions C11_reset_flow_multi_reads_back.
+
+(* ... and with total_flow: the total reads back in its unit, and the flows read back in the written proportions
+   (one common factor c): the composition written together with the total is kept *)
+Theorem C11_reset_flow_total_reads_back : forall Vf MWf pkgs utab l ops,
+  (forall g, ~ MWf g == 0) -> (forall g p T P, ~ Vf g p T P == 0) ->
+  let h := final Vf MWf pkgs utab l ops in
+  forall i s p u w f fl t, nth_error (streams h) i = Some s -> multi s = false ->
+  unit_of utab u = Some (w, f) -> ~ f == 0 -> ~ t == 0 -> NoDup (map fst fl) ->
+  (sdata s < length (rows h))%nat ->
+  (forall k v, In (k, v) fl -> (k < length (getrow h (sdata s)))%nat) ->
+  snd (reset_flow Vf MWf pkgs utab h s p (Some u) (Some t) fl) = XNone ->
+  let h1 := fst (reset_flow Vf MWf pkgs utab h s p (Some u) (Some t) fl) in
+  f * total Vf MWf pkgs h1 s w == t /\
+  exists c, forall k v, In (k, v) fl ->
+    exists h2 x, get_item Vf MWf pkgs h1 s w O k = (h2, Ok x) /\ f * x == c * v.
+Proof.
+  intros Vf MWf pkgs utab l ops MW VN h i s p u w f fl t Hs M U NZ NT ND D KR OK.
+  exact (reset_flow_total_reads_back Vf MWf pkgs utab MW VN h i s p u w f fl t (inv_final Vf MWf pkgs utab l ops) Hs M U NZ NT ND D KR OK).
+Qed.
+Print Assumptions C11_reset_flow_total_reads_back.
+
+(* s_i.mass = s_j.mass (a mass view written with another stream's mass view) after any history, between single-phase
+   streams of one package with their own molar dicts and view caches: reading the destination's mass view afterwards
+   returns, entry by entry, what the source's mass view held *)
+Theorem C11_assign_mass_reads_back : forall Vf MWf pkgs utab l ops, (forall g, ~ MWf g == 0) ->
+  let h := final Vf MWf pkgs utab l ops in
+  forall i j s o, nth_error (streams h) i = Some s -> nth_error (streams h) j = Some o ->
+  multi s = false -> multi o = false -> pkg s = pkg o -> cch s <> cch o -> sdata s <> sdata o ->
+  (sdata s < length (rows h))%nat ->
+  length (getrow h (sdata s)) = length (mwvec MWf pkgs (pkg s)) ->
+  length (getrow h (sdata o)) = length (mwvec MWf pkgs (pkg s)) ->
+  let h' := fst (assign_view Vf MWf pkgs h s o VMass) in
+  snd (assign_view Vf MWf pkgs h s o VMass) = XNone /\
+  forall k, nthq (nth O (snd (read_mass MWf pkgs h' s)) []) k == nthq (nth O (snd (read_mass MWf pkgs h o)) []) k.
+Proof.
+  intros Vf MWf pkgs utab l ops MW h i j s o Hs Ho M MO PK NC ND D LS LO.
+  exact (assign_mass_reads_back Vf MWf pkgs MW h i j s o (inv_final Vf MWf pkgs utab l ops) Hs Ho M MO PK NC ND D LS LO).
+Qed.
+Print Assumptions C11_assign_mass_reads_back.
+
 (* ---------- non-vacuity ---------- *)
 Definition exV : nat -> phase -> Q -> Q -> Q := fun g p T P => (1 # 2) + inject_Z (Z.of_nat g) + T / 1024.
 Definition exMW : nat -> Q := mwstub.
@@ -353,3 +410,29 @@ Proof.
   - vm_compute. intros d [E|[E|[E|[E|F]]]]; try contradiction; subst d; split; try reflexivity; lia.
   - vm_compute. discriminate.
 Qed.
+
+(* non-vacuity of the three: oracles with no zero, a reachable store with two single-phase streams of one package *)
+Definition dV : nat -> phase -> Q -> Q -> Q := fun _ _ _ _ => 1.
+Definition dMW : nat -> Q := fun _ => 2.
+Definition dOps : list op := [ORead 0 VVol; OSetT 0 384; ORead 2 VMass; OPhase 2 Pg].
+Example C11_deep_nonvacuous :
+  (forall g, ~ dMW g == 0) /\ (forall g p T P, ~ dV g p T P == 0) /\
+  let h := final dV dMW pkgstub exU exL dOps in
+  exists s o, nth_error (streams h) 0 = Some s /\ nth_error (streams h) 2 = Some o /\
+    multi s = false /\ multi o = false /\ pkg s = pkg o /\ cch s <> cch o /\ sdata s <> sdata o /\
+    (sdata s < length (rows h))%nat /\
+    length (getrow h (sdata s)) = length (mwvec dMW pkgstub (pkg s)) /\
+    length (getrow h (sdata o)) = length (mwvec dMW pkgstub (pkg s)) /\
+    unit_of exU 1 = Some (VMass, 1) /\ ~ 1 == 0 /\ NoDup (map fst [(0%nat, 2); (2%nat, 3)]) /\
+    (forall k v, In (k, v) [(0%nat, 2); (2%nat, 3)] -> (k < length (getrow h (sdata s)))%nat) /\
+    snd (reset_flow dV dMW pkgstub exU h s (Some Pg) (Some 1%nat) (Some 8) [(0%nat, 2); (2%nat, 3)]) = XNone.
+Proof.
+  split; [intros g; vm_compute; discriminate|]. split; [intros g p T P; vm_compute; discriminate|].
+  cbv zeta. do 2 eexists. repeat (split; [vm_compute; reflexivity|]).
+  split; [vm_compute; discriminate|]. split; [vm_compute; discriminate|].
+  split; [vm_compute; lia|]. repeat (split; [vm_compute; reflexivity|]).
+  split; [vm_compute; discriminate|]. split; [repeat constructor; simpl; intuition discriminate|].
+  split; [|vm_compute; reflexivity].
+  intros k v [E|[E|[]]]; inversion E; subst; vm_compute; lia.
+Qed.
+
